@@ -31,6 +31,7 @@ class Result:
         "states",
         "nontrivial",
         "steps",
+        "transitions",
     )
 
     def __init__(self):
@@ -38,6 +39,7 @@ class Result:
         self.ops = []
         self.stats = collections.Counter()
         self.states = set()
+        self.transitions = set()
         self.nontrivial = False
         self.steps = 0
 
@@ -51,6 +53,7 @@ class Result:
             "violation": self.violation,
             "stats": dict(self.stats),
             "states": sorted(self.states),
+            "transitions": sorted(self.transitions),
             "nontrivial": self.nontrivial,
             "steps": self.steps,
         }
@@ -66,6 +69,7 @@ class Result:
         r.violation = d["violation"]
         r.stats = collections.Counter(d["stats"])
         r.states = set(d["states"])
+        r.transitions = set(d.get("transitions", []))
         r.nontrivial = d["nontrivial"]
         r.steps = d["steps"]
         return r
@@ -135,6 +139,7 @@ def _loop(prop, cfg, st, rng, given_ops, res, log, budget, allow_restart):
     given_ops is None when generating.
     """
     i = 0
+    prev_hash = 0
     while budget > 0:
         if given_ops is None:
             op = prop.next_op(rng, cfg, st)
@@ -182,6 +187,7 @@ def _loop(prop, cfg, st, rng, given_ops, res, log, budget, allow_restart):
             res.steps += child["steps"]
             res.stats.update(child["stats"])
             res.states.update(child["states"])
+            res.transitions.update(child.get("transitions", []))
             res.nontrivial = res.nontrivial or child["nontrivial"]
             res.stats["restart:" + op.get("mode", "exec")] += 1
             if child["violation"] is not None:
@@ -202,6 +208,9 @@ def _loop(prop, cfg, st, rng, given_ops, res, log, budget, allow_restart):
         sh = prop.state_hash(st)
         if sh is not None:
             res.states.add(sh)
+            # a transition = (state before, kind of operation, state after)
+            res.transitions.add(h64(f"{prev_hash}:{op.get('op')}:{sh}"))
+            prev_hash = sh
         if v is not None:
             v["step"] = len(res.ops) - 1
             res.violation = v
